@@ -83,54 +83,77 @@ Proof. intros W. unfold p_char. rewrite (skip_ign_ws x t W). reflexivity. Qed.
 
 (* ------------------------------------------- escape_string / write_deprecated -- *)
 (* One character of a deprecation reason: reading what escape_string prints
-   for it gives it back (case analysis on the translated table). *)
+   for it gives it back (case analysis on the translated table and on the
+   control characters written by the guarded \u arm). *)
 Lemma escape_char_read c t acc :
-  bad_reason_char c = false -> read_chars (escape_char c ++ t) acc = read_chars t (c :: acc).
+  read_chars (escape_char c ++ t) acc = read_chars t (c :: acc).
 Proof.
-  intro H. unfold escape_char, bad_reason_char in *. unfold sdl_escape_table_gen in *. cbn [nassoc] in *.
+  unfold escape_char. unfold sdl_escape_table_gen, sdl_escape_ctrl_gen. cbn [nassoc andb].
   destruct (c =? 92) eqn:E1; [apply N.eqb_eq in E1; subst; reflexivity|].
+  destruct (c =? 34) eqn:E0; [apply N.eqb_eq in E0; subst; reflexivity|].
   destruct (c =? 8) eqn:E2; [apply N.eqb_eq in E2; subst; reflexivity|].
   destruct (c =? 12) eqn:E3; [apply N.eqb_eq in E3; subst; reflexivity|].
   destruct (c =? 10) eqn:E4; [apply N.eqb_eq in E4; subst; reflexivity|].
   destruct (c =? 13) eqn:E5; [apply N.eqb_eq in E5; subst; reflexivity|].
   destruct (c =? 9) eqn:E6; [apply N.eqb_eq in E6; subst; reflexivity|].
-  apply orb_false_iff in H. destruct H as [Q C].
-  cbn [app read_chars]. rewrite Q, E1, E4, E5. cbn [orb].
-  unfold raw_ctrl in C. rewrite E6 in C. cbn [negb] in C. rewrite andb_true_r in C.
-  apply N.ltb_ge in C. assert (L : (32 <=? c) = true) by (apply N.leb_le; lia).
-  rewrite L, orb_true_r. reflexivity.
+  destruct (is_control c) eqn:EC.
+  - assert (D : c = 0 \/ c = 1 \/ c = 2 \/ c = 3 \/ c = 4 \/ c = 5 \/ c = 6 \/ c = 7 \/ c = 11 \/ c = 14 \/ c = 15 \/ c = 16 \/ c = 17 \/ c = 18 \/ c = 19 \/ c = 20 \/ c = 21 \/ c = 22 \/ c = 23 \/ c = 24 \/ c = 25 \/ c = 26 \/ c = 27 \/ c = 28 \/ c = 29 \/ c = 30 \/ c = 31 \/ c = 127 \/ c = 128 \/ c = 129 \/ c = 130 \/ c = 131 \/ c = 132 \/ c = 133 \/ c = 134 \/ c = 135 \/ c = 136 \/ c = 137 \/ c = 138 \/ c = 139 \/ c = 140 \/ c = 141 \/ c = 142 \/ c = 143 \/ c = 144 \/ c = 145 \/ c = 146 \/ c = 147 \/ c = 148 \/ c = 149 \/ c = 150 \/ c = 151 \/ c = 152 \/ c = 153 \/ c = 154 \/ c = 155 \/ c = 156 \/ c = 157 \/ c = 158 \/ c = 159).
+    { unfold is_control in EC. nb; lia. }
+    repeat (destruct D as [D | D]; [subst c; reflexivity|]). subst c; reflexivity.
+  - cbn [app read_chars]. rewrite E0, E1, E4, E5. cbn [orb].
+    unfold is_control in EC. apply orb_false_iff in EC. destruct EC as [EC _].
+    apply N.leb_gt in EC. assert (L : (32 <=? c) = true) by (apply N.leb_le; lia).
+    rewrite L, orb_true_r. reflexivity.
 Qed.
 
+(* the class of reasons the exporter cannot carry is empty *)
+Lemma bad_reason_char_never c : bad_reason_char c = false.
+Proof.
+  unfold bad_reason_char. unfold sdl_escape_table_gen, sdl_escape_ctrl_gen. cbn [nassoc andb].
+  destruct (c =? 92); [reflexivity|].
+  destruct (c =? 34) eqn:E0; [reflexivity|].
+  destruct (c =? 8); [reflexivity|]. destruct (c =? 12); [reflexivity|].
+  destruct (c =? 10); [reflexivity|]. destruct (c =? 13); [reflexivity|].
+  destruct (c =? 9) eqn:E9; [reflexivity|].
+  destruct (is_control c) eqn:EC; [reflexivity|].
+  cbn [orb]. unfold raw_ctrl. rewrite E9. cbn [negb]. rewrite andb_true_r.
+  unfold is_control in EC. apply orb_false_iff in EC. destruct EC as [EC _].
+  apply N.leb_gt in EC. apply N.ltb_ge. lia.
+Qed.
+
+Lemma bad_reason_never r : existsb bad_reason_char r = false.
+Proof. induction r as [|c r IH]; [reflexivity|]. cbn [existsb]. rewrite bad_reason_char_never, IH. reflexivity. Qed.
+
 Lemma escape_string_read : forall r acc rest,
-  existsb bad_reason_char r = false ->
   read_chars (escape_string r ++ 34 :: rest) acc = Some (rev acc ++ r, rest).
 Proof.
-  induction r as [|c r IH]; intros acc rest H.
+  induction r as [|c r IH]; intros acc rest.
   - cbn. rewrite app_nil_r. reflexivity.
-  - cbn [existsb] in H. apply orb_false_iff in H. destruct H as [Hc Hs].
-    unfold escape_string in *. cbn [flat_map]. rewrite <- app_assoc, (escape_char_read c _ acc Hc), (IH (c :: acc) rest Hs).
+  - unfold escape_string in *. cbn [flat_map]. rewrite <- app_assoc, (escape_char_read c _ acc), (IH (c :: acc) rest).
     cbn [rev]. rewrite <- app_assoc. reflexivity.
 Qed.
 
-Lemma escape_char_head c : bad_reason_char c = false ->
-  exists x r, escape_char c = x :: r /\ (x =? 34) = false.
+Lemma escape_char_head c : exists x r, escape_char c = x :: r /\ (x =? 34) = false.
 Proof.
-  intro H. unfold escape_char, bad_reason_char in *. unfold sdl_escape_table_gen in *. cbn [nassoc] in *.
+  unfold escape_char. unfold sdl_escape_table_gen, sdl_escape_ctrl_gen. cbn [nassoc andb].
   destruct (c =? 92); [eexists _, _; split; reflexivity|].
+  destruct (c =? 34) eqn:E0; [eexists _, _; split; reflexivity|].
   destruct (c =? 8); [eexists _, _; split; reflexivity|].
   destruct (c =? 12); [eexists _, _; split; reflexivity|].
   destruct (c =? 10); [eexists _, _; split; reflexivity|].
   destruct (c =? 13); [eexists _, _; split; reflexivity|].
   destruct (c =? 9); [eexists _, _; split; reflexivity|].
-  apply orb_false_iff in H. destruct H as [Q _]. eexists _, _; split; [reflexivity|exact Q].
+  destruct (is_control c).
+  - unfold escape_u, sdl_escape_u_prefix_gen. cbn [app]. eexists _, _; split; reflexivity.
+  - eexists _, _; split; [reflexivity|exact E0].
 Qed.
 
 (* the quoted reason as a StringValue token, wherever a value is expected *)
 Lemma pval_reason F r rest :
-  existsb bad_reason_char r = false -> starts_with [34] rest = None ->
+  starts_with [34] rest = None ->
   pval false (fun t => t) (S F) (32 :: 34 :: escape_string r ++ 34 :: rest) = Some (CStr r, rest).
 Proof.
-  intros H R. cbn [pval]. rewrite skip_ign_ws by reflexivity. rewrite skip_ign_plain by reflexivity.
+  intros R. cbn [pval]. rewrite skip_ign_ws by reflexivity. rewrite skip_ign_plain by reflexivity.
   change (34 =? 91) with false. change (34 =? 123) with false. change (34 =? 34) with true. cbn iota.
   unfold pstring.
   assert (B : starts_with [34; 34] (escape_string r ++ 34 :: rest) = None).
@@ -138,27 +161,25 @@ Proof.
     - cbn [escape_string flat_map app starts_with]. change (34 =? 34) with true. cbn iota.
       cbn [starts_with] in R. destruct rest as [|b q]; [reflexivity|].
       destruct (34 =? b); [discriminate|reflexivity].
-    - cbn [existsb] in H. apply orb_false_iff in H. destruct H as [Hc _].
-      unfold escape_string. cbn [flat_map]. destruct (escape_char_head c Hc) as [x [q [E X]]]. rewrite E.
+    - unfold escape_string. cbn [flat_map]. destruct (escape_char_head c) as [x [q [E X]]]. rewrite E.
       cbn [app starts_with]. rewrite N.eqb_sym, X. reflexivity. }
-  rewrite B, (escape_string_read r [] rest H). reflexivity.
+  rewrite B, (escape_string_read r [] rest). reflexivity.
 Qed.
 
 Definition T_deprecated : str := lit "deprecated".
 Definition T_reason : str := lit "reason".
 
-(* write_deprecated, token level: for every reason outside class 1 the printed
+(* write_deprecated, token level: for EVERY reason the printed
    text reads back, with the grammar's Directives reader, as exactly the
    directive @deprecated(reason: <the reason>) *)
 Lemma p_dirs_deprecated_reason F k r rest :
-  existsb bad_reason_char r = false ->
   p_dirs (S F) (S k) (write_deprecated (Depr (Some r)) ++ rest) =
   match p_dirs (S F) k rest with
   | Some (l, r') => Some (DInv T_deprecated [(T_reason, CStr r)] :: l, r')
   | None => None
   end.
 Proof.
-  intro H. unfold write_deprecated, depr_open_gen, depr_close_gen.
+  unfold write_deprecated, depr_open_gen, depr_close_gen.
   cbn [app]. cbn [p_dirs].
   unfold peek_is, peek. rewrite skip_ign_ws by reflexivity. rewrite skip_ign_plain by reflexivity.
   change (64 =? 64) with true. cbn iota.
@@ -176,7 +197,7 @@ Proof.
   unfold p_value. rewrite <- app_assoc. cbn [app].
   match goal with |- context [pval ?a ?b ?c ?d] =>
     replace (pval a b c d) with (Some (CStr r, 41 :: rest))
-      by (symmetry; apply (pval_reason F r (41 :: rest) H); reflexivity) end.
+      by (symmetry; apply (pval_reason F r (41 :: rest)); reflexivity) end.
   rewrite peek_is_plain by reflexivity. change (41 =? 41) with true. cbn iota.
   rewrite p_char_plain by reflexivity. change (41 =? 41) with true. cbn iota.
   reflexivity.
@@ -450,11 +471,13 @@ Definition reg_of (types : list mtype) (dirs : list mdirective) (impl : list (st
 Definition T_Int := lit "Int".
 Definition query_with (fs : list mfield) : mtype := MObject (lit "Query") None fs [].
 
-(* 1: reason  use "y" *)
+(* 1 (repaired): reasons  use "y"  and  a<U+0001>b<DEL>  are escaped and read back *)
 Definition R_reason : registry :=
-  reg_of [query_with [MField (lit "old") None [] T_Int (Depr (Some (lit "use ""y"""))) []]] [] [].
-Lemma deprecated_refuted :
-  known_class o_plain R_reason = 1 /\ parse_sdl (export_sdl o_plain R_reason) = None.
+  reg_of [query_with [MField (lit "old") None [] T_Int (Depr (Some (lit "use ""y"""))) [];
+                      MField (lit "older") None [] T_Int (Depr (Some [97; 1; 98; 127; 27; 34; 92])) []]] [] [].
+Lemma deprecated_fixed :
+  known_class o_plain R_reason = 0 /\
+  describes o_plain R_reason (parse_sdl (export_sdl o_plain R_reason)) = true.
 Proof. vm_compute. split; reflexivity. Qed.
 
 (* 2: default "a<ESC>b" is printed "a'b" and reads back as a'b *)
